@@ -26,6 +26,12 @@ type Sys interface {
 	Close()
 }
 
+// Observer is an optional extension of Sys: a targeted observation of what the newest operation can have changed,
+// run on every transition (not during prefix replay). Used where Final is too expensive to run on every transition.
+type Observer interface {
+	Observe(op int) (sig, what string)
+}
+
 type Spec struct {
 	Name    string
 	NumOps  int
@@ -34,6 +40,9 @@ type Spec struct {
 	New     func() Sys
 	Depth   int
 	Trivial func(hist []uint16) bool // histories not counted as non-trivial (optional)
+	// FinalOnNewStatesOnly: run the complete observation only when a new model state is reached (for systems whose
+	// Apply already observes everything the operation can change, or whose Final is very expensive)
+	FinalOnNewStatesOnly bool
 }
 
 type Result struct {
@@ -94,7 +103,7 @@ func Run(c *ev.Ctx, sp *Spec) Result {
 	for d := 1; d <= sp.Depth && len(frontier) > 0; d++ {
 		var next [][]uint16
 		var nmu sync.Mutex
-		var trans, states int64
+		var trans, states, finals int64
 		var wg sync.WaitGroup
 		jobs := make(chan []uint16, 1024)
 		aborted := false
@@ -103,7 +112,7 @@ func Run(c *ev.Ctx, sp *Spec) Result {
 			wg.Add(1)
 			go func() {
 				defer wg.Done()
-				var ltrans, lstates int64
+				var ltrans, lstates, lfinals int64
 				var lnext [][]uint16
 				for h := range jobs {
 					if c.Expired() {
@@ -138,15 +147,31 @@ func Run(c *ev.Ctx, sp *Spec) Result {
 							s.Close()
 							continue // do not extend through a diverged state
 						}
+						if ob, ok := s.(Observer); ok {
+							if sig, what := ob.Observe(op); sig != "" {
+								c.Report(sp.Name+"/"+sig, what, Replay{Spec: sp.Name, Ops: names(sp, nh), Idx: nh})
+								s.Close()
+								continue
+							}
+							lfinals++
+						}
 						k := s.Key()
-						if addSeen(k) {
+						isNew := addSeen(k)
+						// The dedup key is derived from the reference model. Two histories that reach the same model
+						// state are only merged after the implementation has been observed completely on BOTH of
+						// them: an operation that leaves the implementation in another state than the model is seen
+						// here even when the model state was reached before by a correct path.
+						if isNew || !sp.FinalOnNewStatesOnly {
+							if sig, what := s.Final(); sig != "" {
+								c.Report(sp.Name+"/final/"+sig, what, Replay{Spec: sp.Name, Ops: names(sp, nh), Idx: nh})
+							}
+							lfinals++
+						}
+						if isNew {
 							lstates++
 							lnext = append(lnext, nh)
 							if sp.Trivial == nil || !sp.Trivial(nh) {
 								c.Distinct(sp.Name + "|" + k)
-							}
-							if sig, what := s.Final(); sig != "" {
-								c.Report(sp.Name+"/final/"+sig, what, Replay{Spec: sp.Name, Ops: names(sp, nh), Idx: nh})
 							}
 						}
 						s.Close()
@@ -156,6 +181,7 @@ func Run(c *ev.Ctx, sp *Spec) Result {
 				next = append(next, lnext...)
 				trans += ltrans
 				states += lstates
+				finals += lfinals
 				nmu.Unlock()
 			}()
 		}
@@ -166,6 +192,7 @@ func Run(c *ev.Ctx, sp *Spec) Result {
 		wg.Wait()
 		res.Transitions += trans
 		res.States += states
+		c.AddEvals(finals)
 		if aborted {
 			res.Complete = false
 			break
@@ -191,6 +218,11 @@ func ReplayOps(sp *Spec, idx []uint16) (string, error) {
 		}
 		if sig, what := s.Apply(int(o)); sig != "" {
 			return fmt.Sprint(names(sp, idx[:i+1])), fmt.Errorf("%s: %s", sig, what)
+		}
+	}
+	if ob, ok := s.(Observer); ok && len(idx) > 0 {
+		if sig, what := ob.Observe(int(idx[len(idx)-1])); sig != "" {
+			return fmt.Sprint(names(sp, idx)), fmt.Errorf("%s: %s", sig, what)
 		}
 	}
 	if sig, what := s.Final(); sig != "" {
